@@ -6,6 +6,7 @@ require (
 	github.com/AdguardTeam/AdGuardDNS v0.0.0
 	github.com/AdguardTeam/AdGuardDNS/internal/dnsserver v0.0.0
 	github.com/AdguardTeam/golibs v0.30.4
+	github.com/ameshkov/dnscrypt/v2 v2.3.0
 	github.com/anishathalye/porcupine v1.3.0
 	github.com/c2h5oh/datasize v0.0.0-20231215233829-aa82cc1e6500
 	github.com/miekg/dns v1.1.62
@@ -19,7 +20,6 @@ require (
 	github.com/AdguardTeam/urlfilter v0.20.0 // indirect
 	github.com/aead/chacha20 v0.0.0-20180709150244-8b13a72661da // indirect
 	github.com/aead/poly1305 v0.0.0-20180717145839-3fee0db0b635 // indirect
-	github.com/ameshkov/dnscrypt/v2 v2.3.0 // indirect
 	github.com/ameshkov/dnsstamps v1.0.3 // indirect
 	github.com/axiomhq/hyperloglog v0.2.0 // indirect
 	github.com/beorn7/perks v1.0.1 // indirect
